@@ -623,7 +623,7 @@ func (e *Encoder) copyBuiltin(fr *frame, dst, src *SVal, ci ssa.CallInstruction)
 	k := c.Bound("k", BV64)
 	inr := c.And(c.BVCmp("bvule", dst.Off, k), c.BVCmp("bvult", k, c.BVBin("bvadd", dst.Off, n)))
 	body := c.Eq(c.Select(nd, k), c.Ite(inr, c.Select(sa, c.BVBin("bvadd", c.BVBin("bvsub", k, dst.Off), src.Off)), c.Select(da, k)))
-	e.assumeFact(c.Forall([]*Term{k}, body))
+	e.assumeFact(c.ForallPat([]*Term{k}, body, c.Select(nd, k)))
 	e.set(e.cur, cls, c.Store(mem, dst.Base, nd))
 	return &SVal{K: KScalar, Typ: intT, T: n}
 }
@@ -675,7 +675,7 @@ func (e *Encoder) appendBuiltin(fr *frame, s, t *SVal, ci ssa.CallInstruction) *
 		start := c.BVBin("bvadd", s.Off, s.Len)
 		inr := c.And(c.BVCmp("bvule", start, k), c.BVCmp("bvult", k, c.BVBin("bvadd", start, tlen)))
 		body := c.Eq(c.Select(nd, k), c.Ite(inr, c.Select(ta, c.BVBin("bvadd", c.BVBin("bvsub", k, start), toff)), c.Select(inner, k)))
-		e.assumeFact(c.Forall([]*Term{k}, body))
+		e.assumeFact(c.ForallPat([]*Term{k}, body, c.Select(nd, k)))
 		inner = nd
 	}
 	if e.pure == 0 {
@@ -835,7 +835,7 @@ func init() {
 			nd := c.Fresh("randfill", Arr(BV64, BV8))
 			k := c.Bound("k", BV64)
 			inr := c.And(c.BVCmp("bvule", b.Off, k), c.BVCmp("bvult", k, c.BVBin("bvadd", b.Off, b.Len)))
-			e.assumeFact(c.Forall([]*Term{k}, c.Eq(c.Select(nd, k), c.Ite(inr, c.Select(draw, c.BVBin("bvsub", k, b.Off)), c.Select(old, k)))))
+			e.assumeFact(c.ForallPat([]*Term{k}, c.Eq(c.Select(nd, k), c.Ite(inr, c.Select(draw, c.BVBin("bvsub", k, b.Off)), c.Select(old, k))), c.Select(nd, k)))
 			e.set(e.cur, "mem:bv8", c.Store(mem, b.Base, nd))
 			tt := resT.(*types.Tuple)
 			return &SVal{K: KTuple, Typ: resT, Fields: []*SVal{{K: KScalar, Typ: tt.At(0).Type(), T: b.Len}, e.zero(tt.At(1).Type())}}
@@ -887,7 +887,7 @@ func init() {
 				barr := c.Select(mem, b.Base)
 				content = c.Fresh("sum", Arr(BV64, BV8))
 				k := c.Bound("k", BV64)
-				e.assumeFact(c.Forall([]*Term{k}, c.Eq(c.Select(content, k), c.Ite(c.BVCmp("bvult", k, b.Len), c.Select(barr, c.BVBin("bvadd", b.Off, k)), c.Select(dig, c.BVBin("bvsub", k, b.Len))))))
+				e.assumeFact(c.ForallPat([]*Term{k}, c.Eq(c.Select(content, k), c.Ite(c.BVCmp("bvult", k, b.Len), c.Select(barr, c.BVBin("bvadd", b.Off, k)), c.Select(dig, c.BVBin("bvsub", k, b.Len)))), c.Select(content, k)))
 			}
 			e.set(e.cur, "mem:bv8", c.Store(mem, ref, content))
 			n := c.BVBin("bvadd", b.Len, size)
@@ -956,6 +956,15 @@ var nativeSpec map[string]nativeSpecFn
 
 func init() {
 	nativeSpec = map[string]nativeSpecFn{
+		"bufValid": func(env *Env, n *ast.CallExpr, args []*SVal) *SVal {
+			return env.mkBool(env.e.bufValid(args[0], env.state(), 1<<36))
+		},
+		"bufSmall": func(env *Env, n *ast.CallExpr, args []*SVal) *SVal {
+			return env.mkBool(env.e.bufValid(args[0], env.state(), 1<<30))
+		},
+		"bufBytes": func(env *Env, n *ast.CallExpr, args []*SVal) *SVal {
+			return env.e.bufBytes(args[0], env.state())
+		},
 		// bsum8(data, lo, hi) = data[lo] + ... + data[hi-1]  (mod 256)
 		"bsum8": func(env *Env, n *ast.CallExpr, args []*SVal) *SVal {
 			e := env.e
@@ -1267,9 +1276,21 @@ func (e *Encoder) cryptBlocks(fr *frame, args []*SVal, ci ssa.CallInstruction, r
 		g.out, g.srcLen = out, src.Len
 	}
 	nd := c.Fresh("crypt", Arr(BV64, BV8))
-	k := c.Bound("k", BV64)
-	inr := c.And(c.BVCmp("bvule", dst.Off, k), c.BVCmp("bvult", k, c.BVBin("bvadd", dst.Off, src.Len)))
-	e.assumeFact(c.Forall([]*Term{k}, c.Eq(c.Select(nd, k), c.Ite(inr, c.Select(out, c.BVBin("bvsub", k, dst.Off)), c.Select(old, k)))))
+	if e.contract != nil && e.contract.Options["crypt-exact"] {
+		// exact model: output bytes are the uninterpreted cipher function of the input, bytes outside the range unchanged
+		k := c.Bound("k", BV64)
+		inr := c.And(c.BVCmp("bvule", dst.Off, k), c.BVCmp("bvult", k, c.BVBin("bvadd", dst.Off, src.Len)))
+		e.assumeFact(c.ForallPat([]*Term{k}, c.Eq(c.Select(nd, k), c.Ite(inr, c.Select(out, c.BVBin("bvsub", k, dst.Off)), c.Select(old, k))), c.Select(nd, k)))
+	} else {
+		// default: the whole backing array holds arbitrary bytes afterwards (sound over-approximation,
+		// and what "a party that knows the keys can choose any plaintext" means); only the bytes just
+		// before the output window that callers rely on are pinned individually
+		if g != nil && g.out != nil {
+			e.cryptOut = nd
+			e.cryptOff = dst.Off
+		}
+		_ = old
+	}
 	e.set(e.cur, "mem:bv8", c.Store(mem, dst.Base, nd))
 	return &SVal{K: KTuple, Typ: resT}
 }
@@ -1321,4 +1342,46 @@ func (e *Encoder) timeParts(t *SVal) (*Term, *Term) {
 		return e.c.Fresh("sec", BV64), e.c.Fresh("nsec", BV64)
 	}
 	return e.c.App("timeSec", BV64, t.Fields[0].T, t.Fields[1].T), e.c.App("timeNsec", BV64, t.Fields[0].T, t.Fields[1].T)
+}
+
+// ---- gopacket serialize buffer accessors (used by contracts) ------------------------------------
+
+func (e *Encoder) sbufType() types.Type {
+	t := e.w.lookupTypeByName("github.com/google/gopacket.serializeBuffer")
+	if t == nil {
+		panic(contractError{fmt.Errorf("gopacket.serializeBuffer not found")})
+	}
+	return t
+}
+
+func (e *Encoder) sbufField(b *SVal, st *State, name string) *SVal {
+	t := e.sbufType()
+	s := t.Underlying().(*types.Struct)
+	for i := 0; i < s.NumFields(); i++ {
+		if s.Field(i).Name() == name {
+			return e.load(st, e.fieldAddr(b.T, t, i))
+		}
+	}
+	panic("serializeBuffer has no field " + name)
+}
+
+func (e *Encoder) bufValid(b *SVal, st *State, limit uint64) *Term {
+	c := e.c
+	data := e.sbufField(b, st, "data")
+	start := e.sbufField(b, st, "start").T
+	pre := e.sbufField(b, st, "prepended").T
+	app := e.sbufField(b, st, "appended").T
+	lim := c.BVLit(limit, 64)
+	zero := c.BVLit(0, 64)
+	tag := c.Int(int64(e.w.typeTag(types.NewPointer(e.sbufType()))))
+	return c.And(c.Eq(b.Tag, tag), c.Not(c.Eq(b.T, c.NilRef())),
+		c.BVCmp("bvsle", zero, start), c.BVCmp("bvsle", start, data.Len), c.BVCmp("bvule", data.Len, data.Cap), c.BVCmp("bvule", data.Cap, lim),
+		c.Eq(data.Off, zero), c.BVCmp("bvsle", zero, pre), c.BVCmp("bvsle", pre, lim), c.BVCmp("bvsle", zero, app), c.BVCmp("bvsle", app, lim))
+}
+
+func (e *Encoder) bufBytes(b *SVal, st *State) *SVal {
+	c := e.c
+	data := e.sbufField(b, st, "data")
+	start := e.sbufField(b, st, "start").T
+	return &SVal{K: KSlice, Typ: types.NewSlice(types.Typ[types.Uint8]), Base: data.Base, Off: c.BVBin("bvadd", data.Off, start), Len: c.BVBin("bvsub", data.Len, start), Cap: c.BVBin("bvsub", data.Cap, start)}
 }
